@@ -69,14 +69,20 @@ class C04ProbeHook(commands.StartHook):
     data: str
 
 
-def run_prog(sys_, lay, who, ev):
-    """the body of every probe layer: scripted commands for event `ev`"""
+def run_prog(sys_, lay, who, ev, state="A"):
+    """the body of every probe layer: scripted commands for event `ev`.
+    `state` names the state handler that was invoked for the event (layers switch state by assigning
+    self._handle_event, like TCPLayer.start -> relay_messages -> done); op "S" switches it without blocking."""
     log = sys_.logs[who]
-    log.append(["enter", ev])
+    log.append(["enter", ev, state])
     prog = sys_.progs.get(who + ":" + ev, "")
     ctx = lay.context
     for i, op in enumerate(prog):
         tok = "%s:%s:%d" % (who, ev, i)
+        if op == "S":
+            state = "B" if state == "A" else "A"
+            lay._handle_event = lay.state_b if state == "B" else lay.state_a
+            continue
         if op == "B":
             cmd = ProbeCmd(tok)
         elif op == "H":
@@ -98,10 +104,17 @@ class Probe(layer.Layer):
         super().__init__(ctx)
         self.who, self.sys = who, sys_
 
-    def _handle_event(self, event):
+    def state_a(self, event):
         ev = self.sys.name_of(event)
-        yield from run_prog(self.sys, self, self.who, ev)
+        yield from run_prog(self.sys, self, self.who, ev, "A")
         self.sys.logs[self.who].append(["exit", ev])
+
+    def state_b(self, event):
+        ev = self.sys.name_of(event)
+        yield from run_prog(self.sys, self, self.who, ev, "B")
+        self.sys.logs[self.who].append(["exit", ev])
+
+    _handle_event = state_a
 
 
 class ProbeTunnel(tunnel.TunnelLayer):
@@ -392,10 +405,14 @@ class Sys:
 
     def reference(self, who):
         out = []
+        state = "A"  # sequential semantics: an event is handled in the state its predecessors left behind
         for ev in self.expected_events(who):
-            out.append(["enter", ev])
+            out.append(["enter", ev, state])
             for i, op in enumerate(self.progs.get(who + ":" + ev, "")):
                 tok = "%s:%s:%d" % (who, ev, i)
+                if op == "S":
+                    state = "B" if state == "A" else "A"
+                    continue
                 out.append(["yield", tok])
                 if op in BLOCKING:
                     if tok not in self.replies:
@@ -519,6 +536,8 @@ class Spec:
                 extra = [[self._evname(s, e) for e in lay.events], lay.layer is not None]
             elif isinstance(lay, tunnel.TunnelLayer):
                 extra = [lay.tunnel_state.name, [self._evname(s, e) for e in lay._event_queue], lay.command_to_reply_to is not None]
+            elif isinstance(lay, Probe):
+                extra = getattr(lay._handle_event, "__name__", "?")  # current state handler
             real[name] = [ptok, q, extra]
         return [s.topo, s.debug, s.hs, s.ask_on_start, s.arrivals, sorted(s.progs.items()), s.logs, sorted(s.outstanding),
                 sorted((k, v[0]) for k, v in s.replies.items()), s.decided, s.crash, real, s.anomalies]
@@ -557,6 +576,8 @@ class Spec:
             held = bool(out_owners & set(s.ancestors(who)))
             verdict = {"each_event_once_in_order": None, "no_new_event_while_waiting": None,
                        "reply_reaches_its_own_yield": None}
+            if who not in ("P", "M"):
+                verdict["buffered_event_handled_in_state_left_by_earlier_events"] = None
             if who in ("P", "M"):
                 verdict["parent_not_paused_by_child"] = None
             if nl:
@@ -569,7 +590,10 @@ class Spec:
                 o = obs[i]
                 r = ref[i] if i < len(ref) else None
                 if o[0] == "enter":
-                    if r is not None and r[0] == "enter":
+                    if r is not None and r[0] == "enter" and r[1] == o[1]:
+                        # the right event, but handed to a stale state handler
+                        bad = "buffered_event_handled_in_state_left_by_earlier_events"
+                    elif r is not None and r[0] == "enter":
                         pre = nl and s.decided is not None and (_idx(o[1]) < s.decided or _idx(r[1]) < s.decided)
                         bad = "prechoice_events_reach_child_in_arrival_order" if pre else "each_event_once_in_order"
                     elif (r is None and ref and ref[-1][0] == "yield") or (r is not None and r[0] in ("sent", "yield", "exit")):
@@ -617,11 +641,13 @@ class Spec:
 # programs: B = custom blocking command (token reply), H = real blocking hook, O = real OpenConnection
 # (both replies), N = non-blocking SendData.  "BB": the 2nd command is reached through __process,
 # "NHN": non-blocking commands on both sides of a blocking one.
-P5 = ["", "B", "BB", "NHN", "O"]
-P4 = ["", "B", "BB", "NHN"]
+# "S": switch the state handler (assign self._handle_event) without blocking - later events, buffered or not,
+# must be handled by the new state handler.
+P5 = ["", "B", "BB", "NHN", "O", "S"]
+P4 = ["", "B", "BB", "NHN", "S"]
 P3 = ["", "B", "BB"]
 PROGS_QUICK = {"single": P5, "tunnel": P4, "tunnel_open": P3, "mux": P3, "nextlayer": P3, "tunnel_nextlayer": P3}
-PROGS_THOROUGH = {"single": P5, "tunnel": P4, "tunnel_open": P4, "mux": P3, "nextlayer": P3, "tunnel_nextlayer": P4}
+PROGS_THOROUGH = {"single": P5, "tunnel": P4, "tunnel_open": P4, "mux": P3, "nextlayer": P3 + ["S"], "tunnel_nextlayer": P4}
 N_QUICK = {"single": 3, "tunnel": 2, "tunnel_open": 2, "mux": 2, "nextlayer": 3, "tunnel_nextlayer": 2}
 N_THOROUGH = {"single": 4, "tunnel": 3, "tunnel_open": 3, "mux": 3, "nextlayer": 4, "tunnel_nextlayer": 3}
 PREFIX_LEN = 3
